@@ -31,6 +31,8 @@ func scenarios(tier string) []sched.Scenario {
 		{Name: "spurious-failover", Fault: "spurious-failover", Clients: 1, PerCli: 1, SyncData: true},
 		{Name: "leader-crash", Fault: "leader-crash", Clients: 1, PerCli: 1, SyncData: true},
 		{Name: "coord-crash", Fault: "coord-crash", Clients: 1, PerCli: 1, SyncData: true},
+		{Name: "lost-become-leader-response", Fault: "lost-become-leader-response", Clients: 1, PerCli: 1, SyncData: true},
+		{Name: "coord-crash-after-become-leader", Fault: "coord-crash-after-become-leader", Clients: 1, PerCli: 1, SyncData: true},
 		{Name: "swap", Fault: "swap", Clients: 1, PerCli: 1, SyncData: true},
 		{Name: "swap-unreachable", Fault: "swap-unreachable", Clients: 1, PerCli: 1, SyncData: true},
 		{Name: "rolling-isolation", Fault: "rolling-isolation", Clients: 0, PerCli: 0, SyncData: true},
